@@ -154,12 +154,12 @@ def run(ck, facts):
 
     # ---------------- R3 template slots
     checks = [
-        ("c/impl.h.jinja", r"⟦\s*method\.return_ty\s*⟧\s+⟦\s*method\.abi_name\s*⟧\s*\(", "prototype name = method.abi_name"),
+        ("c/impl.h.jinja", r"⟦\s*\w+\.return_ty\s*⟧\s+⟦\s*\w+\.abi_name\s*⟧\s*\(", "prototype name = method.abi_name"),
         ("c/impl.h.jinja", r"void\s+⟦\s*dtor_name\s*⟧\s*\(", "destructor prototype = dtor_name"),
-        ("cpp/method_impl.h.jinja", r"⟦\s*m\.abi_name\s*⟧\s*\(", "call m.abi_name("),
+        ("cpp/method_impl.h.jinja", r"⟦\s*\w+\.abi_name\s*⟧\s*\(", "call m.abi_name("),
         ("cpp/opaque_impl.h.jinja", r"⟦\s*dtor_name\s*⟧\s*\(\s*reinterpret_cast", "operator delete -> dtor_name"),
-        ("dart/native_method.dart.jinja", r"symbol:\s*'⟦\s*m\.abi_name\s*⟧'", "symbol: 'm.abi_name'"),
-        ("dart/native_method.dart.jinja", r"@_DiplomatFfiUse\('⟦\s*m\.abi_name\s*⟧'\)", "_DiplomatFfiUse('m.abi_name')"),
+        ("dart/native_method.dart.jinja", r"symbol:\s*'⟦\s*\w+\.abi_name\s*⟧'", "symbol: 'm.abi_name'"),
+        ("dart/native_method.dart.jinja", r"@_DiplomatFfiUse\('⟦\s*\w+\.abi_name\s*⟧'\)", "_DiplomatFfiUse('m.abi_name')"),
         ("dart/opaque.dart.jinja", r"symbol:\s*'⟦\s*destructor\s*⟧'", "symbol: 'destructor'"),
         ("dart/opaque.dart.jinja", r"@_DiplomatFfiUse\('⟦\s*destructor\s*⟧'\)", "_DiplomatFfiUse('destructor')"),
         ("kotlin/Opaque.kt.jinja", r"fun\s+⟦\s*dtor_abi_name\s*⟧\s*\(\s*handle:\s*Pointer\s*\)", "fun dtor_abi_name(handle: Pointer)"),
@@ -169,7 +169,7 @@ def run(ck, facts):
     ]
     # control statements allowed around each slot (anything else makes a reference to an exported symbol conditional on unrelated data)
     slot_guards = {
-        ("c/impl.h.jinja", "prototype name = method.abi_name"): ["for method in methods"],
+        ("c/impl.h.jinja", "prototype name = method.abi_name"): ["for <v> in methods"],
         ("c/impl.h.jinja", "destructor prototype = dtor_name"): ["match dtor_name / when Some with (dtor_name)"],
         ("kotlin/Opaque.kt.jinja", "lib.dtor_abi_name(handle)"): ["if !use_finalizers_not_cleaners"],
         ("js/method.js.jinja", "wasm.abi_name("): ["if typescript / else"],
@@ -180,7 +180,7 @@ def run(ck, facts):
         mm = re.search(rx, fl)
         ck.expect(mm is not None, "R3", "%s/%s" % (rel, what), what, "template %s no longer prints the symbol slot (%s)" % (rel, what), "tool/templates/" + rel)
         if mm:
-            g = tmpl.guards_at(fl, mm.start())
+            g = [re.sub(r"^for \w+ in ", "for <v> in ", x_) for x_ in tmpl.guards_at(fl, mm.start())]
             want = slot_guards.get((rel, what), [])
             ck.expect(g == want, "R3", "%s/%s/guards" % (rel, what), str(g),
                       "the symbol slot (%s) is now emitted under %s (expected %s): the exported symbol is declared/used only when an unrelated condition holds "
